@@ -7,7 +7,7 @@ pub const FRAG: &[&str] = &[
     "ab", "x1", "_y", "9", " ", "  ", "\t", "\n", "\r\n", "\n\n", ";", ",", "(", ")", "[", "]", "+", "-", "*", "/", "/ ", "=", "==", "'", "#", "@", "$d", "\"s\"",
     "\"a b\"", "\"q\\\"r\"", "\"`x\"", "\"é\"", "\"\"", "\"l1\\\nl2\"", "\"// x\"", "\"/* y\"", "\\esc ", "\\e+- \t", "\\x\n", "\\`q ", "/* c */", "/* `d \"q */",
     "/**/", "// c\n", "// \"q `d\n", "//\n", "/* é\n */", "é", "8'hff", "1.5", "a.b", "{", "}", "?", ":", "<=", ">>", "!", "~", "&", "|", "^", "%", ".", "\r",
-    "module", "endmodule", "begin end", "\"\\\\\"", "\"a\\", "\\", "/*", "\"",
+    "\u{c}", "module", "endmodule", "begin end", "\"\\\\\"", "\"a\\", "\\", "/*", "\"",
 ];
 
 pub fn soup(r: &mut Rng) -> String {
@@ -55,14 +55,14 @@ pub fn k1_model(text: &str) -> Option<String> {
                 if p >= b.len() {
                     break;
                 }
-                if b[p] == b' ' || b[p] == b'\t' {
+                if b[p] == b' ' || b[p] == b'\t' || b[p] == 0x0c {
                     let q = p;
-                    while p < b.len() && (b[p] == b' ' || b[p] == b'\t') {
+                    while p < b.len() && (b[p] == b' ' || b[p] == b'\t' || b[p] == 0x0c) {
                         p += 1;
                     }
                     again.push_str(&text[q..p]);
                 } else if b[p] == b'\n' || b[p] == b'\r' {
-                    while p < b.len() && matches!(b[p], b' ' | b'\t' | b'\n' | b'\r') {
+                    while p < b.len() && matches!(b[p], b' ' | b'\t' | b'\n' | b'\r' | 0x0c) {
                         p += 1;
                     }
                 } else if text[p..].starts_with("//") {
